@@ -1445,7 +1445,9 @@ static int parse_loop(struct scanner_s *scanner, cif_container_tp *container) {
                             break;
                         case CIF_TRAVERSE_END:
                             goto loop_body_end;
-                        /* default: do nothing */
+                        default:
+                            /* an error code from the handler: stop and return it, as for every other handler function */
+                            goto loop_body_end;
                     }
                 }  /* else loop == NULL from its initialization */
 
